@@ -621,3 +621,20 @@ mutant("rcf-hex-in-helper",
 mutant("rcf-negate-any-int",
        [("src/ast.rs", "    pub fn negated_int_literal(magnitude: i64) -> Self {", "    pub fn negated_int_literal(magnitude: i64) -> Self {\n        let magnitude = magnitude - 1 + 1;")],
        [("C02", "R02.2")], base=RCF, note="constfold refactor + raw i64 arithmetic in the literal constructor")
+
+REV = "refactors/evaluator/patch.diff"
+mutant("rev-body-on-callers-chain",
+       [(E, "                Evaluator::new(context, &mut closure)\n                    .eval_stmts(bindings, &stmts)", "                Evaluator::new(context, scopes)\n                    .eval_stmts(bindings, &stmts)")],
+       [("C04", "R04.3")], base=REV, note="Evaluator-struct refactor + function body runs on the caller's chain (dynamic scoping)")
+mutant("rev-block-without-push",
+       [(E, "        let mut new_scopes = self.scopes.new_from_push(HashMap::new());\n        let mut inner = Evaluator::new(self.context, &mut new_scopes);", "        let mut new_scopes = self.scopes.clone();\n        let mut inner = Evaluator::new(self.context, &mut new_scopes);")],
+       [("C04", "R04.4")], base=REV, note="Evaluator-struct refactor + blocks run in the enclosing scope")
+
+RMR = "refactors/mainrun/patch.diff"
+mutant("rmr-script-failure-exits-1",
+       [(MAIN, "const EXIT_SCRIPT_FAILED: i32 = 103;", "const EXIT_SCRIPT_FAILED: i32 = 1;")],
+       [("C17", "L5")], base=RMR, note="mainrun refactor + script failures exit with status 1")
+mutant("rmr-eval-before-parse-check",
+       [(MAIN, "    let ast = parse_prog(&src)?;\n\n    eval_script(cur_script_dir, cur_rel_script_path, &ast)",
+               "    let ast = parse_prog(&src);\n    let fallback = Prog::Body{stmts: vec![]};\n    eval_script(cur_script_dir.clone(), cur_rel_script_path, ast.as_ref().unwrap_or(&fallback))?;\n    ast.map(|_| ())")],
+       [("C03", "R03.1")], base=RMR, note="mainrun refactor + evaluation no longer behind the successful parse")
